@@ -486,6 +486,15 @@ func (d *c08Det) op(name string, args ...int) {
 		cur += " " + strconv.Itoa(a)
 	}
 	d.cur.Store(cur)
+	defer func() {
+		if r := recover(); r != nil {
+			// a crash of the real code (e.g. a wild pointer in the assembly) is an observation;
+			// the lock's state is unknown afterwards, so the case continues on a fresh lock
+			yieldFn = nil
+			d.out.printf("%s | panic\n", cur)
+			d.l, d.held = new(Spinlock), false
+		}
+	}()
 	switch name {
 	case "T":
 		r := 0
@@ -505,17 +514,15 @@ func (d *c08Det) op(name string, args ...int) {
 		yieldFn = c08YieldHook
 		if name == "A" {
 			d.l.Acquire()
-			d.out.printf("A %d | ", args[0])
 		} else {
 			archAcquireSpinlock(&d.l.state, uint32(args[1]))
-			d.out.printf("AX %d %d | ", args[0], args[1])
 		}
 		yieldFn = nil
 		d.held = true
 		if c08Bailed {
-			d.out.printf("hang %d\n", d.word())
+			d.out.printf("%s | hang %d\n", cur, d.word())
 		} else {
-			d.out.printf("%d %d\n", c08Yields, d.word())
+			d.out.printf("%s | %d %d\n", cur, c08Yields, d.word())
 		}
 	}
 }
@@ -525,6 +532,12 @@ func (d *c08Det) op(name string, args ...int) {
 func c08NilYield(d *c08Det, spins int) {
 	atomic.AddInt64(d.tick, 1)
 	d.cur.Store("AN")
+	defer func() {
+		if r := recover(); r != nil {
+			d.out.printf("AN | panic\n")
+			d.l, d.held = new(Spinlock), false
+		}
+	}()
 	old := debug.SetGCPercent(-1) // a spinning assembly loop cannot be preempted: no stop-the-world now
 	defer debug.SetGCPercent(old)
 	yieldFn = nil
@@ -551,7 +564,7 @@ func c08NilYield(d *c08Det, spins int) {
 // ------------------------------------------------------------------ stress
 
 type c08StressRes struct {
-	violations, lost, sections, tryTrue, tryFalse, acquires int64
+	violations, lost, sections, tryTrue, tryFalse, acquires, panics int64
 	word                                                  uint32
 	hang                                                  bool
 }
@@ -575,6 +588,11 @@ func c08Stress(seed uint64, n, iters, tryPct int, tick *int64, watchdog time.Dur
 		go func(r *vrng) {
 			defer wg.Done()
 			var sections, tt, tf, acq int64
+			defer func() {
+				if r := recover(); r != nil {
+					atomic.AddInt64(&res.panics, 1) // a crash of the real code is an observation
+				}
+			}()
 			<-start
 			for it := 0; it < iters; it++ {
 				if r.intn(100) < tryPct {
@@ -660,6 +678,15 @@ func TestVerifC08(t *testing.T) {
 	watchdog := time.Duration(verifEnvInt("VERIF_WATCHDOG_S", 120)) * time.Second
 	var tick int64
 
+	// model exploration requests (the driver runs a breadth-first search of the regenerated model)
+	out.printf("case search\n")
+	out.printf("search 2 | ok\n")
+	out.printf("search 3 | ok\n")
+	if thorough {
+		out.printf("search 4 | ok\n")
+	}
+	out.w.Flush()
+
 	// The deterministic part runs in its own goroutine so that an endless spin (possible only with
 	// a broken lock) becomes a `hang` observation instead of a stuck harness.
 	detDone := make(chan struct{})
@@ -668,6 +695,7 @@ func TestVerifC08(t *testing.T) {
 	go func() {
 		defer close(detDone)
 		fresh := func(id string) {
+			out.w.Flush() // keep the trace usable if the real code takes the process down
 			out.printf("case %s\n", id)
 			d.l, d.held = new(Spinlock), false
 		}
@@ -732,9 +760,6 @@ func TestVerifC08(t *testing.T) {
 					d.op("AX", k, r.between(1, 6))
 				}
 			}
-			if i%64 == 0 {
-				out.w.Flush()
-			}
 		}
 	}()
 	detHang := false
@@ -759,14 +784,6 @@ wait:
 		return
 	}
 
-	// model exploration requests (the driver runs a breadth-first search of the regenerated model)
-	out.printf("case search\n")
-	out.printf("search 2 | ok\n")
-	out.printf("search 3 | ok\n")
-	if thorough {
-		out.printf("search 4 | ok\n")
-	}
-
 	// stress: fixed work per round; thread counts 2..32 on all cores, plus restricted-P variants
 	all := runtime.NumCPU()
 	iters := verifEnvInt("VERIF_C08_ITERS", 4000)
@@ -789,17 +806,20 @@ wait:
 					}
 					out.printf("case stress-%d\n", round)
 					round++
-					res := c08Stress(rng.next(), nt, it, tryPct, &tick, watchdog)
-					hang := 0
+					seed := rng.next()
+					res := c08Stress(seed, nt, it, tryPct, &tick, watchdog)
+					hang := 0 // 0 = completed, 1 = watchdog (no progress), 2 = the real code crashed
 					if res.hang {
 						hang = 1
+					} else if atomic.LoadInt64(&res.panics) != 0 {
+						hang = 2
 					}
 					pr := procs
 					if procs == all {
 						pr = 0 // "all cores": keep the trace independent of the machine
 					}
 					out.printf("# stress sections=%d acquires=%d tryTrue=%d tryFalse=%d\n", res.sections, res.acquires, res.tryTrue, res.tryFalse)
-					out.printf("S %d %d %d %d | %d %d %d %d\n", nt, it, pr, tryPct, res.violations, res.lost, res.word, hang)
+					out.printf("S %d %d %d %d %d | %d %d %d %d\n", nt, it, pr, tryPct, seed&0xffffffff, res.violations, res.lost, res.word, hang)
 					out.w.Flush()
 					if res.hang {
 						return
